@@ -179,6 +179,14 @@ func replayHistory(raw json.RawMessage, steps []LStep, salt int) (mm *mismatch) 
 			err = rb.BuildRuleFromResource(st.Kb, "1", res(ruleText(st.Name, st.Text)))
 		case "build2":
 			err = rb.BuildRuleFromResource(st.Kb, "1", res(ruleText(st.Name, st.Text)+"\n"+ruleText(st.Name, 3-st.Text)))
+		case "builddupc":
+			// the duplicate next to an unrelated new rule (which never matches a probe); both orders
+			comp := fmt.Sprintf(`rule Comp%d_%d { when F.X == 99 && F.Z == 0 then F.A = 9; }`, i, salt%1000)
+			parts := []string{comp, ruleText(st.Name, st.Text), fmt.Sprintf(`rule Comq%d_%d { when F.Y == 98 then F.Bv = 9; }`, i, salt%1000)}
+			if (i+salt)%2 == 1 {
+				parts[0], parts[1] = parts[1], parts[0]
+			}
+			err = rb.BuildRuleFromResource(st.Kb, "1", res(strings.Join(parts, "\n")))
 		case "badsyntax":
 			err = rb.BuildRuleFromResource(st.Kb, "1", res(badSyntax[(i+salt)%len(badSyntax)]))
 			if err != nil {
